@@ -5,10 +5,10 @@ from tools import dfir, vlib
 class C25(dfir.DfirSpec):
     tag = "C25"
     props_vo = "theories/Props/C25.vo"
-    theorems = ["C25_frame", "C25_settled_reads", "C25_slot_semantics", "C25_real_schedule"]
+    theorems = ["C25_frame", "C25_settled_reads", "C25_slot_semantics", "C25_real_schedule", "C25_loop_schedule"]
     modes = ("ticks", "avail")
     level = "other"
-    explanation = "Not category proof: that the partitioner ALWAYS produces a schedule with the producer before every referrer, access groups in order, referrers before the pipe consumer (clause 6 of engine E6's WellFormed) is E6's open item (C18 is translation validation); here the clause is an executable check (ModelRefs.chain_ok, frame part proved sound) evaluated on the real schedule of every loop-free C25 program on every run, and C25_real_schedule states settled reads on any schedule that passes it. For programs with loop blocks (references crossing a loop boundary) only the correspondence and the sequential group-order specification apply. Closures with more than one reference and hydro_lang::handoff_ref are not modelled."
+    explanation = "Not category proof: that the partitioner ALWAYS produces a schedule with the producer before every referrer, access groups in order, referrers before the pipe consumer (clause 6 of engine E6's WellFormed) is E6's open item (C18 is translation validation); here the clause is an executable check (ModelRefs.chain_ok, frame part proved sound) evaluated on the real schedule of every loop-free C25 program on every run, and C25_real_schedule states settled reads on any schedule that passes it. For programs with loop blocks (references crossing a loop boundary) the same check runs on the blocks in program order descending into the loop gates (refs_ordered_l, C25_loop_schedule: blocks that do not use the slot leave it alone); the settled-reads equation itself is proved for loop-free schedules only. Closures with more than one reference and hydro_lang::handoff_ref are not modelled."
     assumptions = [
         "block order and subgraph membership come from the real partitioner via meta_graph(); the ordering guarantee "
         "itself is property C17/C18 (engine E6)",
@@ -57,12 +57,10 @@ class C25(dfir.DfirSpec):
         outs = [] if panic else res["outs"]
         obs = [] if panic else res["obs"]
         lo = self.low[case["prog"]]
-        if lo.loops:
-            sched = "true"      # loop blocks: the flat schedule check does not apply
-        else:
-            slots = sorted(set(h for _, _, h in lo.ref_groups))
-            groups = "[" + "; ".join("(%d, %d)" % (n, g) for n, g, _ in lo.ref_groups) + "]"
-            sched = " && ".join("refs_ordered prog_%d %s %d" % (case["prog"], groups, h) for h in slots) or "true"
+        slots = sorted(set(h for _, _, h in lo.ref_groups))
+        groups = "[" + "; ".join("(%d, %d)" % (n, g) for n, g, _ in lo.ref_groups) + "]"
+        fn = "refs_ordered_l" if lo.loops else "refs_ordered"   # loop blocks: flattened block order
+        sched = " && ".join("%s prog_%d %s %d" % (fn, case["prog"], groups, h) for h in slots) or "true"
         return dfir.guard(case["prog"], "vand (" + sched + ") (c25_chk %s prog_%d %s %s %s %s %s %s" % (
             "true" if case["mode"] == "avail" else "false", case["prog"], desc, dfir.g_bools(p.sinks),
             dfir.g_hist(case["hist"]), "true" if panic else "false", dfir.g_outs(outs),
